@@ -5,6 +5,9 @@ import json, os, subprocess
 ROOT = os.path.dirname(os.path.dirname(os.path.abspath(__file__)))
 
 CLAIMED = {
+ "C08": ("4 (C08)", "seeded two-message-protocol simulation: ground-truth trajectories stratified over all NL zones / both sides of every transition latitude / equator / +-87 / antimeridian / CPR-zero points, even/odd frames separated by exactly 9.999999 / 10 / 10.000001 s on the discrete-event clock, lost / duplicated / reordered frames; oracle: reference pairing automaton + textbook global CPR decode (NL from its formula), 20 m against encoded truth, haversine distance, position untouched by every frame that completes no valid pair"),
+ "C11": ("4 (C11)", "seeded refinement against a small executable fold ('latest carrier wins') after every event of interleaved multi-aircraft histories with time steps and duplicate delivery; short histories enumerated densely by run index; carried values taken from the decoder's own state-free decode so that routing / overwriting / clearing / cross-talk / idempotence are judged, not field decoding"),
+ "C19": ("4 (C19)", "seeded differential simulation under deterministic replay: the same world (input, arrival times, clocks) executed under two option sets differing only in presentation/logging options or in -U; oracle: row-by-row table equality after every event (all fields; all but distance for -O; the nine decoded parameters for -U)"),
  "C03": ("4 (C03)", "seeded interleaved multi-aircraft histories (adversarially close addresses, nine formats, random payloads, zero-address frames, duplicates, reordering); invariants after every delivered read against an independent CRC-24/address reference: only the addressed row changes, it exists afterwards, no row for address 0, key == address, no unexplained rows"),
  "C12": ("4 (C12)", "seeded schedules of talk spurts and silences on and around delete_after under a discrete-event clock, every format as the refreshing frame, -U/-f, file and TCP with reconnects; oracle: reference expiry model after every event (live rows present, last-contact stamp == processing time of latest accepted frame, stale rows gone within 12 accepted frames, re-created rows equal first-frame rows, no phantom rows)"),
  "C16": ("4 (C16)", "seeded mixed streams (all formats, unsupported DFs, zero addresses, parity failures, junk) under -f subsets, -c on/off, refresh driven by the simulated clock, stdout captured through the seam; oracle: reference per-DF counter == printed counter line in ascending order, filtered/rejected frames change neither table nor output, passing frames are applied, no counter line without -c"),
